@@ -342,9 +342,13 @@ Definition ref_run (o : op) (t : node) : rstep :=
   | OWritebytes p d => with1 t p (fun cs => ref_open t cs m_wb (Some d) false)
   | OAppendbytes p d => with1 t p (fun cs => ref_open t cs m_ab (Some d) false)
   | OReadbytes p => with1 t p (fun cs => ref_open t cs m_rb None true)
+  (* an invalid mode string is rejected (ValueError) before the path is looked at *)
   | OOpenwrite p m d =>
-    with1 t p (fun cs => ref_open t cs m (if m_writing m then Some d else None) false)
-  | OOpenread p m => with1 t p (fun cs => ref_open t cs m None (m_reading m))
+    if negb (mode_valid_bin m) then same t RValueError
+    else with1 t p (fun cs => ref_open t cs m (if m_writing m then Some d else None) false)
+  | OOpenread p m =>
+    if negb (mode_valid_bin m) then same t RValueError
+    else with1 t p (fun cs => ref_open t cs m None (m_reading m))
   | OCreate p wipe =>
     with1 t p (fun cs =>
       if negb wipe && exists_st (status_of t cs) then same t (ROk (VBool false))
